@@ -47,6 +47,17 @@ def atoi (s : Str) : Option Int :=
     | some v => if v ≤ int64Max then some (v : Int) else none
     | none => none
 
+/-- `v, _ := strconv.Atoi(s)`: the value the caller sees when it drops the error — 0 on a syntax
+    error, the clamped value when out of range -/
+def atoiLoose (s : Str) : Int :=
+  let clamp (neg : Bool) (v : Nat) : Int :=
+    if neg then (if v ≤ int64Max + 1 then -(v : Int) else -((int64Max : Int) + 1))
+    else (if v ≤ int64Max then (v : Int) else (int64Max : Int))
+  match s with
+  | '-' :: r => match parseDigits r with | some v => clamp true v | none => 0
+  | '+' :: r => match parseDigits r with | some v => clamp false v | none => 0
+  | _ => match parseDigits s with | some v => clamp false v | none => 0
+
 /-- left-pad a digit string with `'0'` to width `w` (`astikit.StrPad(s, '0', w, PadLeft)`: a
     longer string is returned as it is) -/
 def padLeft0 (w : Nat) (s : Str) : Str := List.replicate (w - s.length) '0' ++ s
